@@ -7,6 +7,7 @@ import (
 	"os"
 	"sort"
 	"strings"
+	"sync"
 
 	"encoding/hex"
 	"github.com/elnosh/gonuts/cashu"
@@ -43,9 +44,16 @@ type schedX struct {
 	mintWho     []string
 	scn         string
 	kindsAll    []string
+	freeRun     bool
+	mu          sync.Mutex
 }
 
-func (x *schedX) note(format string, a ...any) { x.obs = append(x.obs, fmt.Sprintf(format, a...)) }
+func (x *schedX) note(format string, a ...any) {
+	if x.freeRun { // harness bookkeeping is not the subject of the race pass
+		return
+	}
+	x.obs = append(x.obs, fmt.Sprintf(format, a...))
+}
 func (x *schedX) viol(prop, key, format string, a ...any) {
 	x.v = append(x.v, rt.Violation{Property: prop, Key: key, What: fmt.Sprintf(format, a...)})
 }
@@ -84,6 +92,8 @@ func (x *schedX) thSwap(name string, ins []int, mut string) {
 	outs := w.U.Outputs(w.M.ActiveID(), world.Split(sum-fee.Uint64())...)
 	x.s.Go(name, func() {
 		_, err := w.M.M.Swap(proofs, world.Msgs(outs))
+		x.mu.Lock()
+		defer x.mu.Unlock()
 		x.note("%s swap%v -> %s", name, ins, errc(err))
 		if err == nil {
 			for _, n := range ins {
@@ -107,6 +117,8 @@ func (x *schedX) thMelt(name string, mi int, ins []int) {
 		if err == nil {
 			st = ":" + res.State.String()
 		}
+		x.mu.Lock()
+		defer x.mu.Unlock()
 		x.note("%s melt(mq%d,%v) -> %s%s", name, mi, ins, errc(err), st)
 		x.meltErr[mi] = errc(err)
 		x.outcomeBits = append(x.outcomeBits, name+"="+errc(err)+st)
@@ -122,6 +134,7 @@ func (x *schedX) thCheck(name string, ins []int, times int) {
 	x.s.Go(name, func() {
 		for k := 0; k < times; k++ {
 			st, err := w.M.M.ProofsStateCheck(ys)
+			x.mu.Lock()
 			var names []string
 			for _, s := range st {
 				names = append(names, s.State.String())
@@ -130,6 +143,7 @@ func (x *schedX) thCheck(name string, ins []int, times int) {
 			if err == nil {
 				x.checks = append(x.checks, names)
 			}
+			x.mu.Unlock()
 		}
 	})
 	x.checkIdx = ins
@@ -139,6 +153,8 @@ func (x *schedX) thPollMelt(name string, mi int) {
 	w := x.w
 	x.s.Go(name, func() {
 		res, err := w.M.M.GetMeltQuoteState(context.Background(), w.Melts[mi].Q.Id)
+		x.mu.Lock()
+		defer x.mu.Unlock()
 		x.note("%s pollm(mq%d) -> %s %s", name, mi, errc(err), res.State)
 		x.outcomeBits = append(x.outcomeBits, name+"="+res.State.String())
 	})
@@ -166,6 +182,8 @@ func (x *schedX) doMint(name string, qi int, req nut04.PostMintBolt11Request) {
 	w := x.w
 	q := w.Quotes[qi]
 	sigs, err := w.M.M.MintTokens(req)
+	x.mu.Lock()
+	defer x.mu.Unlock()
 	x.note("%s mint(q%d) -> %s", name, qi, errc(err))
 	if err == nil {
 		x.mintOK[qi]++
@@ -182,6 +200,8 @@ func (x *schedX) thPollQuote(name string, qi int) {
 	w := x.w
 	x.s.Go(name, func() {
 		res, err := w.M.M.GetMintQuoteState(w.Quotes[qi].Q.Id)
+		x.mu.Lock()
+		defer x.mu.Unlock()
 		x.note("%s pollq(q%d) -> %s %s", name, qi, errc(err), res.State)
 		if err == nil && !w.LN.Invoices[w.Quotes[qi].Q.PaymentHash].Settled && res.State != nut04.Unpaid {
 			x.viol("C03", x.scn+"/poll-reports-paid-before-settlement", "GetMintQuoteState(q%d) returned %s while the invoice was not settled", qi, res.State)
@@ -599,4 +619,38 @@ func runSched(c *rt.Ctx, prop string, names []string, bound int) {
 		sched.Report(c, n, bound, st)
 		fmt.Printf("  schedules %-32s bound %d/%d executions %d outcomes %d overlapping %d complete=%v\n", n, st.BoundDone, bound, st.Executions, len(st.Outcomes), st.Collisions, st.Complete)
 	}
+}
+
+// RacePass runs every E1 scenario of a property free-running n times (binary built with -race); data race reports go
+// to stderr and are counted by the caller. Information only: no property quantifies over data races.
+func RacePass(prop string, n int) int {
+	runs := 0
+	var names []string
+	for name, sc := range schedScns {
+		if sc.prop == prop {
+			names = append(names, name)
+		}
+	}
+	sort.Strings(names)
+	for _, name := range names {
+		sc := schedScns[name]
+		for i := 0; i < n; i++ {
+			func() {
+				dir, _ := os.MkdirTemp(rt.ScratchRoot(), "race-")
+				defer os.RemoveAll(dir)
+				w, err := mintops.New(dir, mintops.Config{Fee: sc.fee})
+				if err != nil {
+					return
+				}
+				defer w.Close()
+				s := sched.New(nil)
+				x := &schedX{scn: sc.name, w: w, s: s, swapOK: map[int]int{}, meltOf: map[int][]int{}, meltErr: map[int]string{}, mintOK: map[int]int{}, mintSum: map[int]uint64{}, mintEarly: map[int]bool{}}
+				x.freeRun = true
+				sc.setup(x)
+				s.RunFree()
+				runs++
+			}()
+		}
+	}
+	return runs
 }
